@@ -258,7 +258,9 @@ struct C13 : vr::Driver {
   std::string klass(size_t) override { return "dropin"; }
   void workerInit() override { sim::processInit(); }
 
-  Observation execute(size_t bi, const Hist& H) {
+  // batched = every operation of H is scheduled within ONE interval (before the first tick): the adaptor's queue is applied in
+  // order, so the outcome must be the one of the sequential history
+  Observation execute(size_t bi, const Hist& H, bool batched = false) {
     Observation ob;
     sim::resetScript();
     vb::resetLog();
@@ -276,9 +278,15 @@ struct C13 : vr::Driver {
     Adaptor* ad = adOwner.get();
     sim::decide = [](const std::string&, const std::string&) { return 0; };
     std::vector<bool> accepted;
-    auto out = sim::runTicks(*o, (int)H.size() + 1, [&](int k) {
-      if ((size_t)k <= H.size()) {
-        const Op& op = H[k - 1];
+    const int nTicks = batched ? 2 : (int)H.size() + 1;
+    auto opsAt = [&](int k) -> std::pair<size_t, size_t> {  // [first, last) operations scheduled right before tick k
+      if (batched) return k == 1 ? std::make_pair((size_t)0, H.size()) : std::make_pair(H.size(), H.size());
+      return (size_t)k <= H.size() ? std::make_pair((size_t)k - 1, (size_t)k) : std::make_pair(H.size(), H.size());
+    };
+    auto out = sim::runTicks(*o, nTicks, [&](int k) {
+      auto range = opsAt(k);
+      for (size_t i = range.first; i < range.second; i++) {
+        const Op& op = H[i];
         std::string t(1, (char)('A' + op.tag));
         if (op.kind == 0)
           accepted.push_back(ad->add(t, contentJson(t, op.content)));
@@ -294,13 +302,14 @@ struct C13 : vr::Driver {
       return ob;
     }
     Model m(bases[bi].first, bases[bi].second);
-    for (int t = 1; t <= (int)H.size() + 1 && ob.verdict.empty(); t++) {
-      if (t <= (int)H.size()) {
-        const Op& op = H[t - 1];
+    for (int t = 1; t <= nTicks && ob.verdict.empty(); t++) {
+      auto range = opsAt(t);
+      for (size_t i = range.first; i < range.second && ob.verdict.empty(); i++) {
+        const Op& op = H[i];
         bool want = op.kind == 1 || m.accepts(op.content);
-        if (accepted[t - 1] != want)
+        if (accepted[i] != want)
           ob.verdict = std::string("acceptance: ") + op.str() + (want ? " must be accepted" : " must be refused") + " but was " +
-                       (accepted[t - 1] ? "accepted" : "refused");
+                       (accepted[i] ? "accepted" : "refused");
         m.apply(op);
       }
       if (!ob.verdict.empty()) break;
@@ -401,7 +410,7 @@ struct C13 : vr::Driver {
     // canonical observation of the final state: last tick's call ids + stat + hook order
     std::ostringstream obs;
     for (auto& c : sim::calls)
-      if (c.tick == (int)H.size() + 1 && c.method != "init") obs << c.id << "." << c.method << ";";
+      if (c.tick == nTicks && c.method != "init") obs << c.id << "." << c.method << ";";
     obs << "|added=" << added << "|hooks=" << order << "|" << ik.str();
     ob.text = obs.str();
     return ob;
@@ -450,6 +459,15 @@ struct C13 : vr::Driver {
         }
         outcomes.insert(ob.text);
         if (verbose) printf("  %s => %s\n", histStr(H2).c_str(), ob.modelKey.c_str());
+        // the same operations scheduled within one interval give the same result (the queue is applied in order)
+        if (H2.size() >= 2) {
+          Observation bt = execute(bi, H2, true);
+          transitions++;
+          if (!bt.verdict.empty())
+            fail(H2, "batched-" + bt.verdict + "  [all operations scheduled within one interval]");
+          else if (bt.text != ob.text)
+            fail(H2, "batched-differs: with all operations scheduled within one interval the final observation is\n  " + bt.text + "\nbut one operation per interval gives\n  " + ob.text);
+        }
         // differential reversibility on the real code: H2 + remove(t)  ==  H2 without any operation on t
         if (op.kind == 0) {
           Hist Hr = H2;
@@ -490,7 +508,7 @@ struct C13 : vr::Driver {
            "two rulesets on the same base / unknown ruleset / with hook / hook only / empty) and remove(tag), applied through the real DropInServiceAdaptor "
            "inside Oomd::run; after every operation: scripted tick call order, fresh plugin instances per copy, "
            "oomd.dropin.added, private drop-in bookkeeping, hook priority (fired hook + full order) vs model; plus differential "
-           "reversibility (H+remove(t) vs H without t) on the real code; non-trivial = distinct final observation";
+           "reversibility (H+remove(t) vs H without t) and batching (all operations of H within one interval vs one per interval) on the real code; non-trivial = distinct final observation";
   }
   Json::Value bounds() override {
     Json::Value b;
